@@ -23,6 +23,8 @@ PENDING = {}
 
 LEVEL_TEXT = 'Seeded search over schedules, configurations, fault sequences and operation histories with reference models as oracles; a clean batch is evidence, not proof.'
 
+LEVEL_TEXTS = {'C01': 'Seeded search over entry points, settings (serial / simulated MPI world with schedule, eager roots, poisoned buffers) and k-medoids proposal histories; after every sweep the state is compared with a float64 model. Exploration is the right level: the space of histories and schedules is unbounded and the invariants are cheap to evaluate on each sampled execution.', 'C02': 'Seeded search over data, stopping rules, warm starts and simulated-MPI schedules with an independent greedy replay as oracle; termination claims are decided by a CPU budget that turns a non-terminating run into a violation. A clean batch is evidence, not proof.', 'C06': 'Seeded search over operation histories (the only nondeterminism this property has) with a list-of-rows reference model checked after every step and tape minimisation to the shortest failing history.', 'C09': 'Seeded search over accept/reject histories, seeds and simulated-MPI reductions; the cost is recomputed by the model from the returned centres and labels, so a state that merely looks cheaper is caught. Sampling, not enumeration.', 'C10': 'Seeded search over batch boundaries, worker counts, dispatch/completion orders and trajectory layouts with a brute-force nearest-centre oracle (float64 Kabsch RMSD plus an explicit float32 error model).', 'C13': 'Seeded search over element types, layouts, shapes (including sizes around powers of two), team sizes and virtual-thread orders under a memory model (snapshot isolation + write-write conflict detection) that turns a data race into a deterministic failure; exact rational reference values. Instruction-level interleavings inside a segment are not explored.', 'C14': 'Seeded search over world sizes, stripings, arrival orders, eager roots, reduction association and heap poison; refinement of the distributed run against the serial run and of every mpi operation against its serial definition, including the command-line front end end to end.', 'C15': 'Seeded search over worker counts, dispatch and completion orders, how far workers have got at each pool API call, read faults and file sets; oracle is the concatenation of individually loaded files / the saved rows. Tasks are atomic in the model.', 'C18': 'As C13 for the counting kernel (exact integer model), with invalid inputs probed in forked children; the algebraic laws are evaluated as labelled pure post-conditions on the simulated outputs.', 'C19': 'Each routine is executed as a baseline and under perturbations injected at the allocator, thread and history seams; all executions must agree bitwise. Decides independence from context, not functional correctness. Static site scan with executed-under-poison coverage shows what the sampling reached.'}
+
 CHECKS = {
     'C19': dict(engine='simalloc+simgomp+history', design='5/C19, 4.3, 4.4',
                 technique='deterministic simulation with fault injection at the allocator seam (seeded heap poison, red zones), the thread seam (virtual-thread teams, snapshot isolation) and the history seam (other calls before, reseeded global RNG, reused argument buffers, scribbled output buffers, repetition): each catalogue routine is executed as a baseline and under tape-chosen perturbations and all executions must agree bitwise; static scan of masked-ufunc/np.empty sites with executed-under-poison coverage',
@@ -94,7 +96,7 @@ def main():
                 'evidence_file': 'evidence/%s.json' % pid,
                 'replay_cmd_template': './vcheck replay {path}',
                 'engine': c['engine'],
-                'level_claimed': {'category': 'exploration', 'text': LEVEL_TEXT, 'design_ref': c['design']},
+                'level_claimed': {'category': 'exploration', 'text': LEVEL_TEXTS.get(pid, LEVEL_TEXT), 'design_ref': c['design']},
                 'level_note': c['note'],
                 'technique': c['technique'],
             })
